@@ -340,6 +340,30 @@ def run(tier, seed):
             if why:
                 viol.append({"world": "follow-over-linked-pair%d" % i, "why": "; ".join(why), "klass": None})
             shutil.rmtree(base, ignore_errors=True)
+        # (round 5, side notes of the sub-agent producing seed C13-5) names that stop being hard links of each other in the source WITHOUT a
+        # change of content or time stamp: a name leaves its group (cp -p c t; mv t c), a group splits in two -- the destination follows
+        for i in range(2 if tier == "quick" else 6):
+            base = os.path.join(sc.dir, "sep%d" % i)
+            src, dst = base + "/src", base + "/dst"
+            os.makedirs(src); os.makedirs(dst)
+            names = ["a", "b", "c", "d"]
+            with open(src + "/a", "wb") as f:
+                f.write(world.pbytes(4900 + i, [20, 50000][i % 2]))
+            for nm in names[1:]:
+                os.link(src + "/a", src + "/" + nm)
+            r1 = world.run_sy([src, dst, "-H", "-q"], sc, timeout=60)
+            leavers = ["c"] if i % 2 == 0 else ["c", "d"]
+            subprocess.run(["cp", "-p", src + "/" + leavers[0], src + "/tmpname"], check=True)
+            os.rename(src + "/tmpname", src + "/" + leavers[0])
+            for nm in leavers[1:]:
+                os.remove(src + "/" + nm); os.link(src + "/" + leavers[0], src + "/" + nm)
+            r2 = world.run_sy([src, dst, "-H", "-q", "-j%d" % [1, 4][i % 2]], sc, timeout=60)
+            s_cls = inode_classes(world.snapshot(src)); d_cls = inode_classes(world.snapshot(dst))
+            bad = [nm for nm in names if world.sha(dst + "/" + nm) != world.sha(src + "/" + nm)]
+            if r1["rc"] != 0 or r2["rc"] != 0 or s_cls != d_cls or bad:
+                viol.append({"world": "leaves-group-without-change%d" % i, "why": "%r left the group {a,b,c,d} in the source without a change of content or time stamp: after -H exit %s/%s, source classes %r, destination classes %r, wrong content %r"
+                             % (leavers, r1["rc"], r2["rc"], s_cls, d_cls, bad), "klass": None})
+            shutil.rmtree(base, ignore_errors=True)
         # (round 4, S1 of seed C13-4's notes) every name is in the destination with the right bytes on its own inode; one carries a
         # whole-second time stamp (tar, an older tool): up to date for the planner -- and still a member of its group
         for i in range(2 if tier == "quick" else 8):
